@@ -374,7 +374,18 @@ func c18r2(c *an.Ctx) {
 			an.Instrs(fn, func(in ssa.Instruction) {
 				switch x := in.(type) {
 				case *ssa.Store:
-					if fa, ok := x.Addr.(*ssa.FieldAddr); ok && x.Val == v {
+					// the value itself, or a parameter that lives in memory because a closure (a log line) reads it
+					same := x.Val == v
+					if ld, isLd := x.Val.(*ssa.UnOp); isLd && ld.Op == token.MUL && !same {
+						if al, isAl := ld.X.(*ssa.Alloc); isAl {
+							for _, r := range *al.Referrers() {
+								if st2, isSt := r.(*ssa.Store); isSt && st2.Addr == ssa.Value(al) && st2.Val == v {
+									same = true
+								}
+							}
+						}
+					}
+					if fa, ok := x.Addr.(*ssa.FieldAddr); ok && same {
 						if st, ok := deref(fa.X.Type()).Underlying().(*types.Struct); ok && st.NumFields() > fa.Field {
 							if nt, ok := deref(fa.X.Type()).(*types.Named); ok && nt.Obj().Name() == "Frame" && st.Field(fa.Field).Name() == field {
 								found = true
